@@ -6,7 +6,7 @@ CONSTANT CfgSet <- MCCfgSetQ
 CONSTANT Skew = 2
 CONSTANT SecMs = 2
 CONSTANT TMax = 3
-CONSTANT DMutant = "none"
+CONSTANT DMutant = "no_filter"
 CONSTANT DedupMutant = "none"
 INVARIANT AbsChecked
 CHECK_DEADLOCK FALSE
